@@ -36,7 +36,7 @@ def validate_traces(cap, producers, runs, wd, tag):
                 "c_ProdOps == [p \\in c_Producers |-> <<>>]\nc_ConsOps == <<>>\n====\n")
     with open(os.path.join(wd, mod + ".cfg"), "w") as f:
         f.write("SPECIFICATION TraceSpec\nCONSTANTS\n  Cap = %d\n  Producers <- c_Producers\n  ProdOps <- c_ProdOps\n"
-                "  ConsOps <- c_ConsOps\n  Sequential = FALSE\n  FreeOps = TRUE\n  MaxOps = 0\n"
+                "  ConsOps <- c_ConsOps\n  Sequential = FALSE\n  FreeOps = TRUE\n  MaxOps = 0\n  Nested = FALSE\n"
                 "CONSTRAINT Track\nPOSTCONDITION TraceAccepted\nCHECK_DEADLOCK FALSE\n"
                 "INVARIANTS\n  %s\n" % (cap, " ".join(i for i in queuedefs.INVARIANTS if i != "LenWhenQuiescent")))
     stats = dict(states=0, transitions=0, wall=0.0, events=0)
@@ -135,6 +135,38 @@ def run(tier, seed):
         chk.evaluations += len(beh)
         if beh:
             chk.sample(dict(kind="sequential history", capacity=cap, history=beh[len(beh) // 2]))
+    # 2b. the same with one push suspended in flight (between the reservation of its cell and its publication)
+    #     while other operations run: on the real queue those operations are executed from inside the push's
+    #     message closure, which the queue calls exactly in that window
+    nmax = 5 if thorough else 4
+    for cap in (1, 2, 3):
+        name = f"nest_c{cap}"
+        mod, cfg = queuedefs.write_mc(name, cap, {"p1": [], "p2": []}, [], wd, sequential=True, freeops=True,
+                                      maxops=nmax, emit=True, nested=True)
+        res = run_tlc(mod, cfg, wd, workers=14, timeout=3000)
+        chk.add_tlc(f"MpscQueue histories with an in-flight push [cap {cap}, {nmax} ops]", res)
+        if not res.ok:
+            raise ToolError(f"MpscQueue nested instance violates {res.violation}")
+        beh = [b for b in (parse_printed(ln)[1] for ln in res.printed) if any(o["inn"] for o in b)]
+        got = harness(dict(mode="seq", capacity=cap, producers=["p1", "p2"],
+                           behaviours=[[dict(t=o["t"], op=o["op"], inn=o["inn"]) for o in b] for b in beh]), wd, name)
+        bad = 0
+        for b, g in zip(beh, got):
+            exp = [o["ret"] for o in b]
+            if exp != g:
+                k = next((i for i in range(len(exp)) if i >= len(g) or exp[i] != g[i]), 0)
+                if bad < 3:
+                    desc = [(o["t"], o["op"], "during push of " + o["inn"] if o["inn"] else "") for o in b]
+                    chk.violation(f"queue of capacity {cap}: operation #{k + 1} {b[k]['t']}.{b[k]['op']} returned "
+                                  f"{g[k] if k < len(g) else g} but MpscQueue.tla requires {exp[k]}; history {desc}",
+                                  dict(engine="queue", capacity=cap,
+                                       ops=[dict(t=o["t"], op=o["op"], inn=o["inn"]) for o in b], expected=exp, observed=g),
+                                  signature=f"nest:{cap}:{json.dumps(desc)}")
+                bad += 1
+        chk.traces += len(beh)
+        chk.evaluations += len(beh)
+        if beh:
+            chk.sample(dict(kind="history with an in-flight push", capacity=cap, history=beh[len(beh) // 2]))
     # 3. real threads: the programs of the TLC instances and random ones, many repetitions
     rep = 300 if thorough else 60
     for (name, cap, po, co) in insts:
